@@ -162,7 +162,8 @@ def run(rep, tier, seed):
     rep.cov["rule"] = ("TLC-enumerated histories write(k1);write(k2);query(k3) (spec/GenMaps.tla; quick takes every 5th) "
                        "over 16 keys x 3 ways of writing, 4 queries each, plus seeded random histories, plus all ordered pairs of "
                        "28 keys of every kind through one fixed history whose observations must agree with the observed "
-                       "k1 == k2 (spec/MapEqTrace.tla); distinct = "
+                       "k1 == k2 (spec/MapEqTrace.tla; 31 keys incl. NaN, plus every key under two names), replacement under equal keys with "
+                       "equal but distinguishable values (4 kinds of keys x 7 value pairs x 2 x 2 ways of writing); distinct = "
                        "distinct (way, key, way, key, key) tuples; all contain at least one lookup")
     rep.cov["exhaustive"] = False
     for it in items[:1] + items[-1:]:
